@@ -30,8 +30,6 @@ import (
 	"encoding/json"
 	"errors"
 	"fmt"
-	"io"
-	"sort"
 	"strings"
 	"sync"
 	"time"
@@ -88,9 +86,10 @@ func c09IsOptKind(kind string) bool { return kind == "optshare" || kind == "tool
 
 // ---- generators ----
 
-func c09GenOptShare(r *vh.Rand) c09Case {
+// k = how many cases of the family were generated before (the graph modes are dealt round-robin)
+func c09GenOptShare(r *vh.Rand, k int) c09Case {
 	c := c09Case{Kind: "optshare", Seed: r.U64() % 1000000}
-	o := &c09OptShare{Mode: []string{"pregel", "dag", "chain", "workflow"}[r.Intn(4)]}
+	o := &c09OptShare{Mode: []string{"pregel", "chain", "workflow", "dag"}[k%4]}
 	kinds := []string{"i", "i", "s", "c", "t"}
 	nk := 0
 	add := func(sub bool) {
@@ -206,9 +205,9 @@ func c09Shuffle(r *vh.Rand, s []int) []int {
 	return out
 }
 
-func c09GenToolList(r *vh.Rand) c09Case {
+func c09GenToolList(r *vh.Rand, k int) c09Case {
 	c := c09Case{Kind: "toollist", Seed: r.U64() % 1000000}
-	t := &c09ToolList{Mode: []string{"pregel", "dag", "chain", "workflow"}[r.Intn(4)], Nested: r.Chance(30), Desig: r.Chance(50)}
+	t := &c09ToolList{Mode: []string{"pregel", "chain", "workflow", "dag"}[k%4], Nested: r.Chance(30), Desig: r.Chance(50)}
 	names := []string{"ta", "tb", "tc", "td"}
 	tk := []string{"i", "i", "s", "is"}
 	nl := r.Range(2, 4)
@@ -228,7 +227,7 @@ func c09GenToolList(r *vh.Rand) c09Case {
 	for _, n := range names {
 		t.Dflt = append(t.Dflt, c09TLTool{Name: n, Mark: "D", Kind: tk[r.Intn(4)]})
 	}
-	t.Shape = []string{"alternate", "alternate", "distinct", "mixed"}[r.Intn(4)]
+	t.Shape = []string{"alternate", "distinct", "alternate", "mixed", "alternate", "distinct"}[(k/4)%6]
 	c.TL = t
 	ng := []int{2, 3, 4, 4, 6, 8}[r.Intn(6)]
 	c.Reps = r.Range(2, 5)
@@ -911,8 +910,6 @@ func c09ToolListRunner(c *c09Case, r compose.Runnable[*schema.Message, string]) 
 	}
 }
 
-var _ = io.EOF
-
 // ---- parent side: run, compare, account ----
 
 type c09XAns struct {
@@ -1094,7 +1091,7 @@ func c09EvaluateX(ctx *vh.Ctx, c *c09Case) error {
 	res := c09RunChildEnv(c, 60*time.Second, "halt_on_error=0 exitcode=66 atexit_sleep_ms=50")
 	raced := strings.Contains(res.Stderr, "WARNING: DATA RACE")
 	reportRace := func() {
-		fs, wr := c09RaceFuncs(res.Stderr)
+		fs, wr := c09RaceFuncsAny(res.Stderr)
 		ctx.Res.Dist("outcome:race")
 		ctx.Res.Disagree(vh.Disagreement{
 			Signature: "C09:race:write-in:" + strings.Join(wr, "|"),
@@ -1198,6 +1195,27 @@ func c09EvaluateX(ctx *vh.Ctx, c *c09Case) error {
 	return nil
 }
 
+// the child keeps running after a report (halt_on_error=0): take the first report whose
+// write-side stack could be restored; if none, name the functions of the first report
+func c09RaceFuncsAny(stderr string) (all []string, writers []string) {
+	rest := stderr
+	for {
+		i := strings.Index(rest, "WARNING: DATA RACE")
+		if i < 0 {
+			break
+		}
+		fs, ws := c09RaceFuncs(rest[i:])
+		if all == nil {
+			all = fs
+		}
+		if len(ws) > 0 {
+			return fs, ws
+		}
+		rest = rest[i+len("WARNING: DATA RACE"):]
+	}
+	return all, all
+}
+
 func c09IsPrefix(p, q []string) bool {
 	if len(p) > len(q) {
 		return false
@@ -1209,5 +1227,3 @@ func c09IsPrefix(p, q []string) bool {
 	}
 	return true
 }
-
-var _ = sort.Strings
